@@ -37,11 +37,13 @@ def names_for(system, spelling="generic", alt=0):
     return tuple(out)
 
 
-def np_array(system, rows, momentum=False, shape=None, spelling=None, dtype=numpy.float64, extra=False):
-    """NumPy vector array storing `rows` (list of coordinate tuples) in `system`; extra: a non-coordinate int field"""
+def np_array(system, rows, momentum=False, shape=None, spelling=None, dtype=numpy.float64, extra=False, perm=0):
+    """NumPy vector array storing `rows` (list of coordinate tuples) in `system`; extra: a non-coordinate int field; perm: the
+    order in which the structured dtype lists the fields (0 canonical, 1 reversed, 2 rotated by one - any order is a valid array)"""
     d = len(system) + 1
     names = names_for(system, spelling or ("momentum" if momentum else "generic"))
-    dt = [(n, dtype) for n in names] + ([("charge", numpy.int64)] if extra else [])
+    listed = list(names) if perm % 3 == 0 else (list(names)[::-1] if perm % 3 == 1 else list(names)[1:] + list(names)[:1])
+    dt = [(n, dtype) for n in listed] + ([("charge", numpy.int64)] if extra else [])
     arr = numpy.zeros(len(rows), dtype=dt)
     for j, n in enumerate(names):
         arr[n] = [r[j] for r in rows]
